@@ -17,7 +17,8 @@ def register(OPS, drv):
         r = drv.serve_once(w.config, data, tls=tls)
         return data, r
 
-    def links_of(proto, resp, server_name="gopher.example", server_port=70):
+    def links_of(proto, resp, server_name="gopher.example", server_port=None):
+        server_port = drv.SERVER_PORT if server_port is None else server_port
         """-> list of (selector_bytes or None, advertised_type or None, raw link info)"""
         out = []
         try:
